@@ -662,9 +662,20 @@ func encodeLegacyMessage(magic int8, offset int64, attrs int8, ts int64, key, va
 // inner offsets are relative (magic 1, as brokers >= 0.10 store them) or absolute (magic 0, or
 // magic 1 with absInner as written by old producers and kept by the broker).
 func encodeLegacy(wb *wbatch, absInner bool) []byte {
+	// LogAppendTime (magic 1): timestamp-type bit 3 and the broker's time on the message; for a wrapper the broker
+	// stamps the wrapper - the model also rewrites the inner messages (a broker that re-compresses does), so that the
+	// expected timestamp does not depend on which of the two a reader consults
+	tsAttr := int8(0)
+	if wb.logAppend && wb.magic == 1 {
+		tsAttr = 8
+	}
 	if wb.codec == 0 {
 		rec := wb.recs[0]
-		return encodeLegacyMessage(wb.magic, wb.baseOffset+rec.delta, 0, rec.tsMs, rec.key, rec.val)
+		ts := rec.tsMs
+		if tsAttr != 0 {
+			ts = wb.maxTs
+		}
+		return encodeLegacyMessage(wb.magic, wb.baseOffset+rec.delta, tsAttr, ts, rec.key, rec.val)
 	}
 	var inner wr
 	last := wb.recs[len(wb.recs)-1].delta
@@ -673,8 +684,12 @@ func encodeLegacy(wb *wbatch, absInner bool) []byte {
 		if wb.magic == 0 || absInner {
 			off = wb.baseOffset + rec.delta
 		}
-		inner.raw(encodeLegacyMessage(wb.magic, off, 0, rec.tsMs, rec.key, rec.val))
+		ts := rec.tsMs
+		if tsAttr != 0 {
+			ts = wb.maxTs
+		}
+		inner.raw(encodeLegacyMessage(wb.magic, off, tsAttr, ts, rec.key, rec.val))
 	}
 	// wrapper offset = offset of the last inner message
-	return encodeLegacyMessage(wb.magic, wb.baseOffset+last, int8(wb.codec), wb.maxTs, nil, compress(wb.codec, inner.b))
+	return encodeLegacyMessage(wb.magic, wb.baseOffset+last, int8(wb.codec)|tsAttr, wb.maxTs, nil, compress(wb.codec, inner.b))
 }
